@@ -608,6 +608,12 @@ def _moves_unsafe(arm, order):
                 if lhs.get('e') == 'index':
                     stores.append((ev.ev(lhs['idx']), _canon_hir(_strip_autoref(lhs['base'])), _canon_hir(e['rhs'])))
                     continue
+                if lhs.get('e') == 'un' and lhs['op'] == 'Deref':
+                    inner = _unwrap_block(lhs['a'])
+                    if inner.get('e') == 'mcall' and inner['name'] == 'get_unchecked_mut' and len(inner['args']) == 1:
+                        # `*slice.get_unchecked_mut(i) = v` without the intermediate `let q`
+                        stores.append((ev.ev(inner['args'][0]), _canon_hir(_strip_autoref(inner['recv'])), _canon_hir(e['rhs'])))
+                        continue
                 raise Undecided('assignment target')
             raise Undecided('statement kind ' + str(k))
     run(arm)
